@@ -753,3 +753,18 @@ func firstLine(s string) string {
 	}
 	return s
 }
+
+// ssaPkgOf: the package a function belongs to; for an instance of a generic function (whose Pkg is
+// nil) the package of the generic, for a closure that of its outermost parent.
+func ssaPkgOf(fn *ssa.Function) *ssa.Package {
+	for fn.Parent() != nil {
+		fn = fn.Parent()
+	}
+	if fn.Pkg != nil {
+		return fn.Pkg
+	}
+	if o := fn.Origin(); o != nil && o.Pkg != nil {
+		return o.Pkg
+	}
+	return nil
+}
